@@ -5,7 +5,7 @@
     (self-referential EQU, deep nesting), allocation failure (huge RESB) and running time are
     runtime behaviour outside the model: see known findings and the fuzz/scaling exploration. *)
 From Coq Require Import List ZArith String Bool.
-From Gosk Require Import Base.Bytes Model.Ast Model.Asm Lemmas.AsmLemmas.
+From Gosk Require Import Base.Bytes Model.Ast Model.Asm Model.Encoder Lemmas.AsmLemmas Lemmas.NoPanicLemmas.
 Import ListNotations.
 Local Open Scope Z_scope.
 
@@ -24,3 +24,13 @@ Proof.
   apply Z.leb_le in A. apply Z.leb_le in B. exfalso. apply H. split; assumption.
 Qed.
 Print Assumptions C13_int_out_of_range_diagnosed.
+
+
+(** gosk's own instruction encoder (Model/X86Enc.v over the regenerated tables) returns an error value on every path: for
+    every mode, symbol table, mnemonic and operand list it never panics, so for EVERY program the model of gosk ends in
+    output, a diagnosed failure, "unmodelled" or the stack exhaustion of an EQU cycle - never in a panic. *)
+Theorem C13_encoder_never_panics : forall md st mn es, enc_emit gosk_encoder md st mn es <> EPanic.
+Proof. exact x86_no_panic. Qed.
+Theorem C13_gosk_never_panics : forall p, assemble gosk_encoder p <> Panicked.
+Proof. exact gosk_assemble_never_panics. Qed.
+Print Assumptions C13_gosk_never_panics.
